@@ -57,6 +57,15 @@ unreachable through `Reader.Search`, no doc number exists that a parent could ad
 theorem segIndex_isSome {segs : List PSeg} {g : PSeg} {t : List PSeg} (hs : segs = g :: t) (h0 : g.off = 0) (n : Nat) :
     (segIndexOf (segs.map (·.off)) n).isSome = true := segIndexOf_isSome hs h0 n
 
+/-- three segments (sizes 3, 2, 4), postings 1 | — | 6, 8: `Next` falls through the exhausted second
+segment; `Advance 7` jumps to the third segment; the backward `Advance 2` restarts and finds 6 again -/
+example : drain PIter.step 5 (PIter.mk' [(0, 3), (3, 2), (5, 4)] .postings [1, 6, 8]) = [1, 6, 8] := by decide
+example :
+    let s0 := PIter.mk' [(0, 3), (3, 2), (5, 4)] .postings [1, 6, 8]
+    let r1 := s0.step .next
+    let r2 := r1.2.step (.adv 7)
+    let r3 := r2.2.step (.adv 2)
+    (r1.1, r2.1, r3.1, r3.2.segOff) = (some 1, some 8, some 6, 2) := by decide
 example : (PIter.mk' [] .postings []).advPanics 0 = true := by decide
 example : (PIter.mk' [(0, 3), (3, 2)] .postings [1, 4]).advPanics 4 = false := by decide
 
@@ -240,8 +249,8 @@ example : (Query.bool [.term "t" "x"] [] [] 1).hasClauses = true ∧
     (Query.bool [.term "t" "x"] [] [] 1).norm = .none ∧
     (Query.multi "t" (.range (some "d") (some "abd") false false)).norm = .none := by
   refine ⟨by simp [Query.hasClauses], by simp [Query.norm], ?_⟩
-  simp only [Query.norm, Matcher.regular]
-  decide
+  have : decide ("d" < "abd") = false := by decide
+  simp [Query.norm, Matcher.regular, this]
 
 /-! ## Gen: the constants and guards of /repo's CURRENT source (lean/BlugeGen/C07.lean, regenerated by
 go/extract/c07.go on every run) against the values the model uses -/
@@ -309,11 +318,14 @@ theorem minshould_kept_witness :
     (q.rewriteNone ⟨true⟩ 4).1 = qNoneKept ∧ (q.rewriteNone ⟨true⟩ 4).2 = 0 ∧
     drain (stepD Leaf.step (fuelFor 4 2) 2) 5 (qNoneKept.build Leaf.mk' 2) = [1, 2] := minshould_kept_aux
 
-/-- **fuzziness_0_panics_witness**: `NewFuzzySearcher` with fuzziness 0 indexes `automatons[0]` of an
-empty slice (fuzziness 1, 2 construct a searcher; 3 and negative values are errors) -/
+/-- **fuzziness_0_panics_witness**: BEFORE the repair 2b928d2 `NewFuzzySearcher` with fuzziness 0 indexed
+`automatons[0]` of an empty slice (`fuzzyOutcomePre`; fuzziness 1, 2 construct a searcher; 3 and negative
+values are errors); the current code (`fuzzyOutcome`) treats fuzziness 0 as an exact term search -/
 theorem fuzziness_0_panics_witness :
-    fuzzyOutcome 0 = .panic ∧ fuzzyOutcome 1 = .ok ∧ fuzzyOutcome 2 = .ok ∧ fuzzyOutcome 3 = .err ∧
-    fuzzyOutcome (-1) = .err := fuzziness_0_panics_aux
+    fuzzyOutcomePre 0 = .panic ∧ fuzzyOutcomePre 1 = .ok ∧ fuzzyOutcomePre 2 = .ok ∧ fuzzyOutcomePre 3 = .err ∧
+    fuzzyOutcomePre (-1) = .err ∧
+    fuzzyOutcome 0 = .ok ∧ fuzzyOutcome 1 = .ok ∧ fuzzyOutcome 2 = .ok ∧ fuzzyOutcome 3 = .err ∧ fuzzyOutcome (-1) = .err :=
+  fuzziness_0_panics_aux
 
 /-- **termrange_inverted_witness**: an inverted (or degenerate half-open) term range with exclusive max —
 meaning: no term — enumerates the term equal to `max` (vellum's FST range search when start ≥ end) -/
